@@ -16,14 +16,19 @@ REQUIRED_THEOREMS = [
     'C13_noise_is_standard_normal', 'C13_value', 'C13_value_times', 'C13_call_val', 'C13_call_neginf',
     'C13_grad', 'C13_grad_entry', 'C13_names_ids', 'C13_constructor_keeps_arguments',
     'C13_constructor_repeatable', 'C13_constructor_alias_counterexample', 'C13_history_keeps_results',
-    'C13_s1_returns_fresh', 'C13_results_held', 'C13_results_held_grad', 'C13_shared_buffer_counterexample']
+    'C13_s1_returns_fresh', 'C13_results_held', 'C13_results_held_grad', 'C13_shared_buffer_counterexample',
+    'C13_constructor_keeps_array_arguments', 'C13_cohort_posteriors_keep_their_covariates',
+    'C13_asarray_counterexample']
 RULE = ('random population model (1-3 sub-models out of centred / non-centred Gaussian and log-normal, '
         'truncated Gaussian, pooled, heterogeneous, covariate-wrapped, reduced, 1-2 dims each; composed or '
         'bare), every filter class and compositions of them, fixed or free sigma, additive or log-scale '
         'noise, n_samples 2-6, 1-3 observables, 1-4 unsorted unique times, toy mechanistic model; every '
         'evaluable case ends with a call history on the one posterior object (4-7 evaluateS1 / __call__ at '
         'several vectors incl. ones outside the support, results kept by the caller and read at the end, '
-        'the caller writing into a returned array or into the vector it passed); a case is '
+        'the caller writing into a returned array or into the vector it passed) and with the caller '
+        'overwriting, twice, the times / sigma / covariates containers it handed to the constructor and '
+        're-sorting its filter object (posteriors built before keep their values; a further posterior built '
+        'from the refilled containers is the posterior of the new contents); a case is '
         'non-trivial when it has a pooled / heterogeneous dimension or unsorted times; distinct = distinct '
         '(kinds with dims, filter, sigma mode, noise scale, n_samples, time-order class)')
 ASSUMPTIONS = ['prior, population density, individual-parameter transform and mechanistic model are '
@@ -530,6 +535,8 @@ def run_case(ctx, chi, rng, c, label='gen'):
     # ---------------- a call history on the ONE posterior object, results kept by the caller
     pts, events = gen_history(c, rng, x, x2, n, n_pop, n_top, cfg)
     call_history(ctx, post, post2, inp, pts, events)
+    # ---------------- the caller goes on using (overwrites) the arrays / lists / objects it handed over
+    caller_reuses_arguments(ctx, chi, c, rng, post, post2, inp, cfg, x, x2, n, n_pop, n_top)
 
 
 def own_filter_on_probe(post, c):
@@ -581,6 +588,125 @@ def second_posterior(ctx, chi, c, post, inp, x, v, s1, g, ev, n):
     if isinstance(ev[0], float) and math.isfinite(ev[0]) and math.isfinite(v_b):
         ctx.agree('C13.call.second_posterior', v_b, ev[0], inp)
     return post2
+
+
+# ------------------------------------------------------------------------------------------------------
+# the caller's containers after the constructor: one covariate / times / sigma buffer filled again for the
+# next cohort's posterior, a times array rescaled in place, the filter object re-sorted for another use.
+# A posterior is prior + population density GIVEN ITS covariates + noise + filter term at ITS times with
+# ITS sigma whenever it is evaluated
+# ------------------------------------------------------------------------------------------------------
+def overwrite_buffers(c, rng):
+    """the caller writes new contents (same shapes, valid values) into the SAME containers it passed to
+    the constructor; returns what it wrote"""
+    pool = np.arange(1, 33) * 0.125 + 0.0625
+    new_times = rng.choice(pool, size=c.T, replace=False)
+    c.arg_times[...] = new_times
+    new_sigma = None
+    if c.arg_sigma is not None:
+        new_sigma = rng.uniform(0.05, 0.3, c.R)
+        for r in range(c.R):
+            c.arg_sigma[r] = float(new_sigma[r])
+    new_cov = None
+    if c.arg_cov is not None:
+        new_cov = rng.normal(size=c.arg_cov.shape) * 0.3 + 0.5
+        c.arg_cov[...] = new_cov
+    return {'times': np.array(new_times), 'sigma': new_sigma, 'covariates': new_cov}
+
+
+def snapshot(post, xs):
+    """value, S1 score, gradient (copied) at each vector + names with ids"""
+    out = []
+    with np.errstate(all='ignore'):
+        for z in xs:
+            val = float(post(z.copy()))
+            s, g = post.evaluateS1(z.copy())
+            out.append((val, float(s), np.array(g, float, copy=True)))
+    return out, list(post.get_parameter_names(include_ids=True)), int(post.n_parameters())
+
+
+def same_snapshot(a, b):
+    (ra, na, ka), (rb, nb, kb) = a, b
+    if na != nb or ka != kb or len(ra) != len(rb):
+        return False
+    for (v1, s1, g1), (v2, s2, g2) in zip(ra, rb):
+        if not (core.close(v1, v2, 1e-12) or not (math.isfinite(v1) or math.isfinite(v2))):
+            return False
+        if not (core.close(s1, s2, 1e-12) or not (math.isfinite(s1) or math.isfinite(s2))):
+            return False
+        if math.isfinite(s1) and math.isfinite(s2) and not (
+                g1.shape == g2.shape and core.close(g1, g2, 1e-10, 1e-12)):
+            return False
+    return True
+
+
+def caller_reuses_arguments(ctx, chi, c, rng, post, post2, inp, cfg, x, x2, n, n_pop, n_top):
+    xs = [x]
+    posts = [('first posterior', post)] + ([('second posterior', post2)] if post2 is not None else [])
+    try:
+        before = [snapshot(p, xs) for _, p in posts]
+        wrote = [overwrite_buffers(c, rng)]
+        after = [snapshot(p, xs) for _, p in posts]
+        err = None
+    except Exception as e:  # noqa
+        err = core.errkind(e)
+    ctx.spec('C13.caller_reuses_arguments/evaluable', err is None, inp, {'error': err})
+    if err is not None:
+        return
+    ctx.case('caller_reuses_arguments/' + ('cov' if c.arg_cov is not None else 'nocov') +
+             ('/fixed_sigma' if c.arg_sigma is not None else '/free_sigma'))
+    inp = dict(inp, caller_wrote_into_its_containers=wrote)
+    for (who, _), b, a in zip(posts, before, after):
+        ctx.spec('C13.caller_reuses_arguments/posterior_unchanged', same_snapshot(b, a), inp,
+                 {'which': who, 'x': x, 'before the caller overwrote its times / sigma / covariates containers':
+                  [r[:2] for r in b[0]], 'afterwards': [r[:2] for r in a[0]]})
+    # the next cohort's posterior from the refilled containers: it is the posterior of the NEW contents ...
+    do_new = c.arg_cov is not None or rng.random() < 0.3
+    post3 = None
+    if do_new:
+        c3 = copy.copy(c)
+        c3.times, c3.sigma, c3.cov = wrote[0]['times'], wrote[0]['sigma'], wrote[0]['covariates']
+        try:
+            with np.errstate(all='ignore'):
+                post3 = construct_posterior(chi, c)
+                v3 = [float(post3(z.copy())) for z in (x, x2)]
+                sv3 = [spec_value(chi, c3, post3, cfg, z, n_pop, n_top) for z in (x, x2)]
+            err = None
+        except Exception as e:  # noqa
+            err = core.errkind(e)
+        ctx.spec('C13.caller_reuses_arguments/next_posterior_evaluable', err is None, inp, {'error': err})
+        if err is not None:
+            return
+        if all(math.isfinite(t) for t in v3 + sv3):
+            scale = max([1.0] + [abs(t) for t in v3 + sv3])
+            ctx.spec('C13.caller_reuses_arguments/next_posterior_value',
+                     abs((v3[0] - sv3[0]) - (v3[1] - sv3[1])) <= 1e-9 * scale, inp,
+                     {'x': x, 'x2': x2, 'chi': v3, 'assembly with the new times / sigma / covariates': sv3})
+        elif all(math.isfinite(t) or math.isinf(t) for t in sv3):
+            ctx.spec('C13.caller_reuses_arguments/next_posterior_value',
+                     [core.fclass(t) for t in v3] == [core.fclass(t) for t in sv3], inp,
+                     {'x': x, 'x2': x2, 'chi': v3, 'assembly with the new times / sigma / covariates': sv3})
+        posts.append(('posterior built from the refilled containers', post3))
+        after.append(snapshot(post3, xs))
+    # ... and the earlier ones stay the posteriors of the contents they were built with, also after the
+    # containers are filled a third time and the caller re-sorts ITS filter object
+    try:
+        wrote.append(overwrite_buffers(c, rng))
+        perm = np.arange(c.T)[::-1] if c.T > 1 else np.arange(c.T)
+        c.arg_filter.sort_times(perm)
+        wrote[-1]['filter.sort_times'] = perm
+        final = [snapshot(p, xs) for _, p in posts]
+        err = None
+    except Exception as e:  # noqa
+        err = core.errkind(e)
+    ctx.spec('C13.caller_reuses_arguments/evaluable', err is None, inp, {'error': err})
+    if err is not None:
+        return
+    for (who, _), a, f in zip(posts, after, final):
+        ctx.spec('C13.caller_reuses_arguments/posterior_unchanged', same_snapshot(a, f), inp,
+                 {'which': who, 'x': x, 'when': 'after the containers were filled once more and the caller '
+                  'called sort_times on its own filter object', 'before': [r[:2] for r in a[0]],
+                  'afterwards': [r[:2] for r in f[0]]})
 
 
 # ------------------------------------------------------------------------------------------------------
